@@ -1,2 +1,212 @@
-(* placeholder; replaced below *)
-From PV Require Import C03.Model.
+(* C03 -- yanny: object and file never diverge over write/append histories.
+   Property theorems only; each is closed by `exact` and followed by Print Assumptions.
+   Models: C03/Model.v (file system `fsys`, object `obj`, operations `op`, `step` mirroring yanny.write() and
+   yanny.append(), specification `spec_doc` = the original document followed by every appended pair and row),
+   Yanny/Parse.v (reader), Yanny/Render.v (writer, `sem`, `doc_ok`).
+   Domain: C03/Append.v (`aok` admissible append dictionaries, `clock_ok`, `op_ok`, `hist_ok`, decidable `hist_okb`);
+   invariants: C03/Invariant.v (`SInv`, the inductive strengthening) and C03/Append.v (`Inv`, the property's invariant).
+   Floats are TEXT in the model (the formatting of numbers is an oracle checked by the harness). *)
+From Coq Require Import String.
+From Coq Require Import NArith ZArith List Bool.
+Import ListNotations.
+From PV Require Import Yanny.Bytes Yanny.BytesFacts Yanny.Types Yanny.Parse Yanny.Render
+  C03.Model C03.Proofs C03.Invariant C03.Append C03.Examples.
+Open Scope N_scope.
+
+(* ------------------------------------------------------------------ refusals change nothing *)
+
+(* write() onto the object's own, existing file is refused; file system and object are unchanged *)
+Theorem C03_write_over_existing_refused : forall fs o cmts old,
+  o_file o <> [] -> fs_get fs (o_file o) = Some old ->
+  step (fs, o) (WriteOverExisting cmts) = (fs, o, Refused).
+Proof. exact write_over_own_file_refused. Qed.
+Print Assumptions C03_write_over_existing_refused.
+
+(* write(newfile) onto any existing file is refused BEFORE anything is rendered or stored *)
+Theorem C03_write_to_existing_refused : forall fs o p cmts old,
+  p <> [] -> fs_get fs p = Some old ->
+  step (fs, o) (WriteCopy p cmts) = (fs, o, Refused) /\ step (fs, o) (WriteNew p cmts) = (fs, o, Refused).
+Proof. exact write_copy_to_existing_refused. Qed.
+Print Assumptions C03_write_to_existing_refused.
+
+(* append() when the object's file does not exist: refused (or warned / value error), nothing changes *)
+Theorem C03_append_to_missing_refused : forall fs o p d clock,
+  fs_get fs p = None ->
+  exists out, step (fs, o) (AppendToMissing p d clock) = (fs, o, out) /\ out <> Ok.
+Proof. exact append_to_missing_refused. Qed.
+Print Assumptions C03_append_to_missing_refused.
+
+(* append({}) warns and changes nothing *)
+Theorem C03_append_empty_warns : forall fs o clock,
+  o_file o <> [] -> step (fs, o) (AppendEmpty clock) = (fs, o, Warned).
+Proof. exact append_empty_warns. Qed.
+Print Assumptions C03_append_empty_warns.
+
+(* every operation, on every state: an outcome other than Ok (or a crash of the re-parse) leaves file system and object EQUAL *)
+Theorem C03_refusals_change_nothing : forall s x fs' o' out,
+  step s x = (fs', o', out) -> out = Refused \/ out = Warned \/ out = ValueErr \/ out = Unmodelled ->
+  (fs', o') = s.
+Proof. exact not_ok_changes_nothing. Qed.
+Print Assumptions C03_refusals_change_nothing.
+
+(* ------------------------------------------------------------------ what a successful operation touches *)
+
+(* a successful append only extends: the earlier bytes are a prefix of the file and of the object's contents,
+   something was added, the file name is kept, no other file changes *)
+Theorem C03_append_prefix : forall fs o d clock fs' o',
+  do_append fs o d clock = (fs', o', Ok) ->
+  exists old new, fs_get fs (o_file o) = Some old /\ new <> [] /\
+    fs_get fs' (o_file o) = Some (old ++ new) /\ o_contents o' = o_contents o ++ new /\ o_file o' = o_file o /\
+    (forall q, beq q (o_file o) = false -> fs_get fs' q = fs_get fs q).
+Proof. exact append_prefix. Qed.
+Print Assumptions C03_append_prefix.
+
+(* a successful write creates exactly its target (which did not exist), holding the object's new contents *)
+Theorem C03_write_creates_only_target : forall fs o nf cmts fs' o',
+  do_write fs o nf cmts = (fs', o', Ok) ->
+  fs_get fs (o_file o') = None /\ fs_get fs' (o_file o') = Some (o_contents o') /\
+  (forall q, beq q (o_file o') = false -> fs_get fs' q = fs_get fs q).
+Proof. exact write_creates_only_target. Qed.
+Print Assumptions C03_write_creates_only_target.
+
+(* ------------------------------------------------------------------ what append() writes *)
+
+(* the header pairs append() emits are exactly the specification's new pairs (table keys and 'symbols' skipped) *)
+Theorem C03_append_pairs_text : forall d p a,
+  sem d = Some p -> forallb (entry_ok d) a = true ->
+  append_pairs p a = Some (concat (map render_pair (spec_pairs d a))).
+Proof. exact append_pairs_spec. Qed.
+Print Assumptions C03_append_pairs_text.
+
+(* the rows append() emits are, table by table in the file's table order, the rows given under the upper-case
+   name or, preferred when present, under the lower-case name *)
+Theorem C03_append_rows_text : forall d a,
+  forallb (entry_ok d) a = true -> forall ts, incl ts (d_tables d) ->
+  append_rows (map (fun t => upper (t_name t)) ts) a
+  = Some (concat (map (fun t => concat (map (render_row (upper (t_name t))) (spec_rows a (upper (t_name t))))) ts)).
+Proof. exact append_rows_spec. Qed.
+Print Assumptions C03_append_rows_text.
+
+(* appending an admissible dictionary keeps the document inside the writer's domain *)
+Theorem C03_append_stays_in_domain : forall d a, doc_ok d = true -> aok d a = true -> doc_ok (spec_append d a) = true.
+Proof. exact doc_ok_append. Qed.
+Print Assumptions C03_append_stays_in_domain.
+
+(* in a state satisfying the strong invariant, append() adds exactly: the marker line with the clock, the new
+   pairs, the new rows; the re-parse succeeds and yields the specification's document *)
+Theorem C03_append_adds_text : forall fs o d a clock,
+  SInv fs o d -> aok d a = true -> clock_ok clock = true -> new_body d a <> [] ->
+  exists fs' p',
+    do_append fs o a clock =
+      (fs', mkobj (o_file o) (o_contents o ++ S_APPENDED ++ clock ++ [46; NL] ++ new_body d a) (o_raw o) p', Ok) /\
+    parse (o_contents o ++ S_APPENDED ++ clock ++ [46; NL] ++ new_body d a) = Some p' /\
+    sem (spec_append d a) = Some p'.
+Proof. exact append_adds_text. Qed.
+Print Assumptions C03_append_adds_text.
+
+(* PARSING IS COMPOSITIONAL OVER APPEND: reading old ++ appended text gives the old document with the new pairs
+   after the old pairs and the new rows after the old rows of their tables *)
+Theorem C03_parse_append_compositional : forall fs o d a clock,
+  SInv fs o d -> aok d a = true -> clock_ok clock = true -> new_body d a <> [] ->
+  parse (o_contents o) = sem d /\
+  parse (o_contents o ++ S_APPENDED ++ clock ++ [46; NL] ++ new_body d a) = sem (spec_append d a) /\
+  sem (spec_append d a) <> None.
+Proof. exact parse_append_compositional. Qed.
+Print Assumptions C03_parse_append_compositional.
+
+(* ------------------------------------------------------------------ the invariant *)
+
+(* the strong invariant implies the property's invariant: the file named by the object holds exactly the object's
+   contents, and reading those contents gives the object's tables and pairs (which are the document d) *)
+Theorem C03_strong_invariant_implies_Inv : forall fs o d,
+  SInv fs o d ->
+  (fs_get fs (o_file o) = Some (o_contents o) /\ parse (o_contents o) = Some (o_state o)) /\ sem d = Some (o_state o).
+Proof. exact SInv_Inv. Qed.
+Print Assumptions C03_strong_invariant_implies_Inv.
+
+(* writing any document of the writer's domain to a new file establishes it *)
+Theorem C03_init_establishes_invariant : forall d p0 raw,
+  doc_ok d = true -> p0 <> [] ->
+  exists fs o, init_state d p0 raw = Some (fs, o) /\ SInv fs o d /\ o_file o = p0.
+Proof. exact init_SInv'. Qed.
+Print Assumptions C03_init_establishes_invariant.
+
+(* write(newfile) to a fresh path: Ok, invariant kept for the SAME document, the object now names the new file,
+   tables and pairs are unchanged, the old file is untouched *)
+Theorem C03_write_preserves_Inv : forall fs o d p cmts,
+  SInv fs o d -> p <> [] -> fs_get fs p = None -> cmts_ok cmts = true ->
+  exists fs' o', do_write fs o (Some p) cmts = (fs', o', Ok) /\ SInv fs' o' d /\ o_state o' = o_state o /\ o_file o' = p /\
+                 fs_get fs' (o_file o) = fs_get fs (o_file o).
+Proof. exact write_preserves. Qed.
+Print Assumptions C03_write_preserves_Inv.
+
+(* append(a): Ok with the invariant for the extended document, or Warned with nothing changed (and then the
+   extended document is the document) *)
+Theorem C03_append_preserves_Inv : forall fs o d a clock,
+  SInv fs o d -> aok d a = true -> clock_ok clock = true ->
+  exists fs' o' out, do_append fs o a clock = (fs', o', out) /\ SInv fs' o' (spec_append d a) /\ o_file o' = o_file o /\
+    ((out = Ok /\ exists new, new <> [] /\ o_contents o' = o_contents o ++ new /\ fs_get fs' (o_file o) = Some (o_contents o ++ new)) \/
+     (out = Warned /\ fs' = fs /\ o' = o)).
+Proof. exact append_preserves. Qed.
+Print Assumptions C03_append_preserves_Inv.
+
+(* EVERY operation preserves the invariant, with the specification's document, and has the expected outcome *)
+Theorem C03_step_preserves_Inv : forall fs o d x,
+  SInv fs o d -> op_ok fs d x ->
+  exists fs' o' out, step (fs, o) x = (fs', o', out) /\ SInv fs' o' (spec_op d x) /\ outcome_expected x out.
+Proof. exact step_preserves_Inv. Qed.
+Print Assumptions C03_step_preserves_Inv.
+
+(* ... hence every finite admissible history does *)
+Theorem C03_reachable_SInv : forall ops fs o d,
+  SInv fs o d -> hist_ok (fs, o) d ops ->
+  let '(fs', o') := run (fs, o) ops in SInv fs' o' (spec_doc d ops).
+Proof. exact reachable_Inv. Qed.
+Print Assumptions C03_reachable_SInv.
+
+(* THE PROPERTY: after any admissible history from a written document, the invariant Inv holds *)
+Theorem C03_reachable_Inv : forall d0 p0 raw ops s,
+  doc_ok d0 = true -> p0 <> [] -> init_state d0 p0 raw = Some s -> hist_ok s d0 ops ->
+  let '(fs', o') := run s ops in Inv fs' o'.
+Proof. exact reachable_Inv_plain. Qed.
+Print Assumptions C03_reachable_Inv.
+
+(* ... and tables and pairs are the original ones followed by every appended row / pair, in order *)
+Theorem C03_history_content : forall d0 p0 raw ops s,
+  doc_ok d0 = true -> p0 <> [] -> init_state d0 p0 raw = Some s -> hist_ok s d0 ops ->
+  let '(fs', o') := run s ops in
+  fs_get fs' (o_file o') = Some (o_contents o') /\ parse (o_contents o') = Some (o_state o') /\
+  sem (spec_doc d0 ops) = Some (o_state o').
+Proof. exact history_content. Qed.
+Print Assumptions C03_history_content.
+
+(* the domain is decidable: the harness evaluates hist_okb on every history it runs *)
+Theorem C03_domain_check_sound : forall ops s d, hist_okb s d ops = true -> hist_ok s d ops.
+Proof. exact hist_okb_sound. Qed.
+Print Assumptions C03_domain_check_sound.
+
+Theorem C03_in_domain_history : forall d0 p0 raw steps,
+  in_domain (CHist d0 p0 raw steps) = true ->
+  exists s, init_state d0 p0 raw = Some s /\
+  let '(fs', o') := run s (map fst steps) in
+  fs_get fs' (o_file o') = Some (o_contents o') /\ parse (o_contents o') = Some (o_state o') /\
+  sem (spec_doc d0 (map fst steps)) = Some (o_state o').
+Proof. exact in_domain_history. Qed.
+Print Assumptions C03_in_domain_history.
+
+(* ------------------------------------------------------------------ non-vacuity: a concrete history of nine operations *)
+Theorem C03_example_in_domain : in_domain ex_case = true.
+Proof. exact example_in_domain. Qed.
+Print Assumptions C03_example_in_domain.
+
+Theorem C03_example_content : spec_doc ex_doc ex_ops = ex_final.
+Proof. exact example_history_content. Qed.
+Print Assumptions C03_example_content.
+
+Theorem C03_example_outcomes :
+  match init_state ex_doc (bs "f.par"%string) false with
+  | Some s => outcomes s ex_ops = [Ok; Ok; Ok; Refused; Refused; Warned; Ok; Refused; Ok]
+  | None => False
+  end.
+Proof. exact example_outcomes. Qed.
+Print Assumptions C03_example_outcomes.
